@@ -329,6 +329,10 @@ pub trait DynDs: Send + Sync {
     fn de_slice(&self, cfg: u8, bytes: &[u8]) -> Result<Box<dyn DynDs>, String>;
     fn eq_dyn(&self, other: &dyn DynDs) -> bool;
     fn clone_box(&self) -> Box<dyn DynDs>;
+    /// `self.clone_from(src)` when `src` has the same concrete type (false otherwise, `self` untouched)
+    fn clone_from_dyn(&mut self, _src: &dyn DynDs) -> bool {
+        false
+    }
     fn as_any(&self) -> &dyn Any;
     fn iter_box<'a>(&'a self, kind: IterKind) -> Option<Box<dyn DynIter + 'a>>;
     fn into_iter_box(self: Box<Self>) -> Option<Box<dyn DynIter>>;
@@ -367,6 +371,15 @@ macro_rules! common_ds {
         }
         fn clone_box(&self) -> Box<dyn DynDs> {
             Box::new(Self(self.0.clone()))
+        }
+        fn clone_from_dyn(&mut self, src: &dyn DynDs) -> bool {
+            match src.as_any().downcast_ref::<Self>() {
+                Some(o) => {
+                    self.0.clone_from(&o.0);
+                    true
+                }
+                None => false,
+            }
         }
         fn as_any(&self) -> &dyn Any {
             self
@@ -491,6 +504,21 @@ impl Alias {
             Alias::QWT256Pfs | Alias::QWT512Pfs | Alias::HQWT256Pfs | Alias::HQWT512Pfs
         )
     }
+    /// The alias that differs only in prefetch support (same serialized form), if any.
+    pub fn prefetch_sibling(self) -> Option<Alias> {
+        Some(match self {
+            Alias::QWT256 => Alias::QWT256Pfs,
+            Alias::QWT256Pfs => Alias::QWT256,
+            Alias::QWT512 => Alias::QWT512Pfs,
+            Alias::QWT512Pfs => Alias::QWT512,
+            Alias::HQWT256 => Alias::HQWT256Pfs,
+            Alias::HQWT256Pfs => Alias::HQWT256,
+            Alias::HQWT512 => Alias::HQWT512Pfs,
+            Alias::HQWT512Pfs => Alias::HQWT512,
+            Alias::WT | Alias::HWT => return None,
+        })
+    }
+
     pub fn family(self) -> &'static str {
         match self {
             Alias::WT => "WT",
